@@ -316,8 +316,7 @@ func checkMessage(c *hx.Ctx, k int, desc any, s *lib.ExpSession, raw []byte, n i
 		}
 		body = append(body, b...)
 	}
-	want := refipfix.BuildMessage(m.Domain, m.Seq, m.ExportTime, tid, body)
-	if !bytes.Equal(raw, want) {
+	if !refipfix.SameBody(m.Body, body, refipfix.MinRecordLen(widths)) {
 		c.Violation(k, "data-bytes", "data message differs from the reference encoding (same values, different bytes: prefix form or width)", desc)
 		return false
 	}
